@@ -135,7 +135,7 @@ func c15ValidateLogConfig(r *Run) {
 			fmt.Sprintf("both bounds present: accepting return reachable=%v, statement (window ordered, empty window allowed) says %v; atoms %v", got, lim >= 1, bound))
 	}
 	for _, f := range []string{"NotAfterStart", "NotAfterLimit"} {
-		r.ExpectStores(fn, k+"window."+f+"=config", "new:trillian/ctfe.ValidatedLogConfig#*."+f, "(*timestamppb.Timestamp).AsTime(p0."+f+") || (*timestamppb.Timestamp).AsTime(*Get"+f+"(p0))", 1)
+		r.ExpectPointee(fn, k+"window."+f+"=config", "new:trillian/ctfe.ValidatedLogConfig#*."+f, "(*timestamppb.Timestamp).AsTime(p0."+f+") || (*timestamppb.Timestamp).AsTime(*Get"+f+"(p0))", 1)
 	}
 	// unknown EKU (loop body) and the name table itself
 	r.SgRejectsInLoop(fn, k+"unknown-eku-name", sgBool("g:trillian/ctfe.stringToKeyUsage[*ExtKeyUsages*]#1", "F"))
